@@ -920,7 +920,9 @@ func newMessage(gen *Plugin, f *File, parent *Message, desc protoreflect.Message
 			name += "_"
 		}
 		usedNames[name] = true
-		usedNames["Get"+name] = hasGetter
+		if hasGetter {
+			usedNames["Get"+name] = true
+		}
 		return name
 	}
 	for _, field := range message.Fields {
